@@ -223,7 +223,8 @@ class Optional {
 
     // Constructs the value type, making it active.
     template <typename... Args>
-    constexpr Storage(Args&&... args) noexcept
+    constexpr Storage(Args&&... args) noexcept(
+        std::is_nothrow_constructible<U, Args...>::value)
         : value(std::forward<Args>(args)...) {}
 
     // Non-trivial destructor. This doesn't do anything useful except enable to
@@ -249,7 +250,8 @@ class Optional {
 
     // Constructs the value type, making it active.
     template <typename... Args>
-    constexpr Storage(Args&&... args) noexcept
+    constexpr Storage(Args&&... args) noexcept(
+        std::is_nothrow_constructible<U, Args...>::value)
         : value(std::forward<Args>(args)...) {}
 
     // Trivial destructor.
